@@ -20,13 +20,6 @@ func (s *Service) VerifSetListener(l net.Listener) {
 	s.mutex.Unlock()
 }
 
-// VerifActive returns the number of accepted connections that are still being handled.
-func (s *Service) VerifActive() int64 {
-	s.mutex.Lock()
-	defer s.mutex.Unlock()
-	return s.conncounter
-}
-
 // VerifCtxConn is what ctxio.NewConn returns, seen from outside the internal package.
 type VerifCtxConn interface {
 	ReadWriterContext
